@@ -153,10 +153,7 @@ def load_performance_midi(
             if isinstance(msg, mido.MetaMessage):
                 if msg.type == "set_tempo":
                     mpq = msg.tempo
-                    if (
-                        tempo_changes[-1][1] != mpq
-                    ):  # only add new tempo if it's different from the last one
-                        tempo_changes.append((ttick, mpq))
+                    tempo_changes.append((ttick, mpq))
                     time_conversion_factor = mpq / (ppq * 10**6)
                 elif msg.type == "time_signature":
                     time_signatures.append(
@@ -293,7 +290,9 @@ def load_performance_midi(
 
             pps.append(pp)
 
-    # adjust timing of events based on tempo changes
+    # adjust timing of events based on tempo changes; the changes were collected
+    # track by track and have to be integrated in order of their tick position
+    tempo_changes.sort(key=lambda tc: tc[0])
     for pp in pps:
         for note in pp.notes:
             note["note_on"] = adjust_time(note["note_on_tick"], tempo_changes, ppq)
